@@ -12,7 +12,7 @@ package stream
 //	         either directly by a Collect sink or through Buffer(1) (a consumer that asks for one
 //	         element at a time, so the junction's demand ledger and its internal buffer are used).
 //	         Rig "of": sources Of(...) (Merge, Concat: every length combination; Zip: equal lengths).
-//	         Rig "chan" (Zip, every length combination): sources FromChannel; the harness delivers
+//	         Rig "chan" (all three, every length combination): sources FromChannel; the harness delivers
 //	         the elements in a chosen interleaving (source-major, reverse source-major, round-robin),
 //	         waits for quiescence and then closes the channels in every possible order.
 //	         (Zip over Of sources of unequal length is not run: when Zip completes early the still
@@ -233,9 +233,9 @@ func c46Perms(n int) [][]int {
 	return out
 }
 
-// c46RunZipChan: Zip over channel sources. delivery: 0 source-major, 1 reverse source-major,
+// c46RunFanInChan: Merge / Concat / Zip over channel sources. delivery: 0 source-major, 1 reverse source-major,
 // 2 round-robin; closeOrder: the order in which the channels are closed after delivery.
-func c46RunZipChan(lens []int, delivery int, closeOrder []int, buffered bool) (b c46Branch) {
+func c46RunFanInChan(kind c46Kind, lens []int, delivery int, closeOrder []int, buffered bool) (b c46Branch) {
 	sys := c45NewSystem()
 	defer c45StopSystem(sys)
 	k := len(lens)
@@ -246,7 +246,17 @@ func c46RunZipChan(lens []int, delivery int, closeOrder []int, buffered bool) (b
 		srcs[i] = FromChannel[int](chs[i])
 		c45UnboundedMailboxes(srcs[i].stages)
 	}
-	g, col := c46Consume(Zip(srcs...), buffered)
+	var g RunnableGraph
+	var colT *Collector[[]int]
+	var colI *Collector[int]
+	switch kind {
+	case c46Zip:
+		g, colT = c46Consume(Zip(srcs...), buffered)
+	case c46Merge:
+		g, colI = c46Consume(Merge(srcs...), buffered)
+	default:
+		g, colI = c46Consume(Concat(srcs...), buffered)
+	}
 	h, err := g.Run(context.Background(), sys)
 	if err != nil {
 		panic(err)
@@ -288,7 +298,11 @@ func c46RunZipChan(lens []int, delivery int, closeOrder []int, buffered bool) (b
 		vsched.Settle()
 	}
 	b.done = c45Quiesce(h)
-	b.tups = c45Items(col)
+	if colT != nil {
+		b.tups = c45Items(colT)
+	} else {
+		b.items = c45Items(colI)
+	}
 	if b.done {
 		b.err = h.Err()
 	}
@@ -565,24 +579,26 @@ func TestVerifC46(t *testing.T) {
 								total += n
 								equal = equal && n == lens[0]
 							}
-							if k == c46Zip {
-								// rig "chan": every delivery interleaving x every close order
-								for delivery := 0; delivery < 3; delivery++ {
-									for _, co := range c46Perms(nsrc) {
-										co := co
-										delivery := delivery
-										caseStr := fmt.Sprintf("Zip(FromChannel, source lengths %v, delivery %s, close order %v) > %s", lens,
-											[]string{"source-major", "reverse-source-major", "round-robin"}[delivery], co, c46ModeStr([]bool{buffered}))
-										oneCase(e, "fan-in", caseStr, total > 0, fails, failing, func() (string, string, string) {
-											b := c46RunZipChan(lens, delivery, co, buffered)
-											sig, detail := c46JudgeFanIn(k, lens, b)
-											return sig, detail, fmt.Sprintf("Zip %s done=%v err=%v", c46TupStr(b.tups), b.done, b.err)
-										})
-									}
+							// rig "chan": every delivery interleaving x every close order
+							for delivery := 0; delivery < 3; delivery++ {
+								for _, co := range c46Perms(nsrc) {
+									co := co
+									delivery := delivery
+									caseStr := fmt.Sprintf("%s(FromChannel, source lengths %v, delivery %s, close order %v) > %s", c46KindName[k], lens,
+										[]string{"source-major", "reverse-source-major", "round-robin"}[delivery], co, c46ModeStr([]bool{buffered}))
+									oneCase(e, "fan-in", caseStr, total > 0, fails, failing, func() (string, string, string) {
+										b := c46RunFanInChan(k, lens, delivery, co, buffered)
+										sig, detail := c46JudgeFanIn(k, lens, b)
+										obs := c45Str(b.items)
+										if k == c46Zip {
+											obs = c46TupStr(b.tups)
+										}
+										return sig, detail, fmt.Sprintf("%s %s done=%v err=%v", c46KindName[k], obs, b.done, b.err)
+									})
 								}
-								if !equal {
-									continue // rig "of" only for equal lengths (see file comment)
-								}
+							}
+							if k == c46Zip && !equal {
+								continue // rig "of" only for equal lengths (see file comment)
 							}
 							caseStr := fmt.Sprintf("%s(Of, source lengths %v) > %s", c46KindName[k], lens, c46ModeStr([]bool{buffered}))
 							oneCase(e, "fan-in", caseStr, total > 0, fails, failing, func() (string, string, string) {
